@@ -66,6 +66,27 @@ Lemma node_wiring :
   arg_of 2 c11_node_bidderapi_args = [bos "bidderRegistry"].
 Proof. repeat split; vm_compute; reflexivity. Qed.
 
+(* what the client's monitor hands to a receipt waiter (pkg/evmclient/txmonitor.go: check): a
+   receipt it obtained, the cancellation error, or the receipt object it decoded into -- the
+   three results EvmClient.WaitForReceipt can pass on besides "monitor closed".  This anchors the
+   text of the three delivery sites; the guards around them ([receipt != nil],
+   [result.Result != nil]) are beyond the reach of the extractor. *)
+Lemma monitor_deliveries :
+  arg_of 2 c11_monitor_notify_args =
+  [bos "Result{receipt, nil}"; bos "Result{nil, ErrTxnCancelled}";
+   bos "Result{result.Result.(" ++ bos "*types.Receipt), nil}"].
+Proof. vm_compute. reflexivity. Qed.
+
+(* the two registry objects carry the parsed ABI, the contract address, the client and the logger,
+   and nothing else: a cache, a prepared request, a template or a call-coalescing group would be a
+   further field (source text of the struct types, gen/Generated.v) *)
+Lemma registry_objects_have_no_other_state :
+  c11_prov_struct = [bos "registryABI abi.ABI"; bos "registryContractAddr common.Address";
+                     bos "client evmclient.Interface"; bos "logger " ++ bos "*slog.Logger"] /\
+  c11_bid_struct = [bos "bidderRegistryABI abi.ABI"; bos "bidderRegistryContractAddr common.Address";
+                    bos "client evmclient.Interface"; bos "logger " ++ bos "*slog.Logger"].
+Proof. split; vm_compute; reflexivity. Qed.
+
 Lemma provider_signatures :
   method_sig (r_register provider_registry) [] = bos "registerAndStake()" /\
   method_sig (r_min provider_registry) [] = bos "minStake()" /\
@@ -662,6 +683,71 @@ Proof.
   destruct (value_read c [a1; a2] (want_read c (spec_min (kind c)) [])) as [m|]; [|discriminate].
   destruct (value_read c [a1; a2] (want_read c (spec_stake (kind c)) [VAddress addr])) as [s|]; [|discriminate].
   destruct (N.leb_spec m s) as [Hle|]; [|discriminate]. exists m, s. auto.
+Qed.
+
+(* what [find_call] finds: the i-th read request of the trace is the wanted one *)
+Lemma find_call_spec t want : forall k i,
+  find_call t want k = Some i -> exists i0, i = (k + i0)%nat /\ nth_error (calls t) i0 = Some want.
+Proof.
+  induction t as [|e t IH]; intros k i H; [discriminate|].
+  destruct e as [r|r|h]; cbn [find_call] in H.
+  - destruct (txreq_eqb r want) eqn:E.
+    + injection H as <-. apply txreq_eqb_eq in E. subst r. exists 0%nat. split; [lia|reflexivity].
+    + apply IH in H. destruct H as (i0 & -> & Hn). exists (S i0). split; [lia|exact Hn].
+  - apply IH in H. exact H.
+  - apply IH in H. exact H.
+Qed.
+
+(* The same in the terms of the property: a yes passes only if, among the read requests that
+   were recorded, request number i is exactly the wanted minimum request (to the registry, no
+   value, the selector of the minimum method) and the client's answer number i was bytes that
+   decode to m; request number j is exactly the wanted amount request for the account asked
+   about and answer number j decodes to s; and m <= s. *)
+Lemma checker_reflects_check_property c addr a1 a2 :
+  op c = OpCheck addr a1 a2 -> violation1 c = None -> res c = ObsBool true ->
+  exists i j bm bs m s,
+    nth_error (calls (trace c)) i = Some (want_read c (spec_min (kind c)) []) /\
+    nth i [a1; a2] CErr = CBytes bm /\ decode_uint256 bm = Some m /\
+    nth_error (calls (trace c)) j = Some (want_read c (spec_stake (kind c)) [VAddress addr]) /\
+    nth j [a1; a2] CErr = CBytes bs /\ decode_uint256 bs = Some s /\
+    m <= s.
+Proof.
+  intros Hop Hv Hres.
+  destruct (checker_reflects_check c addr a1 a2 Hop Hv Hres) as (m & s & Hm & Hs & Hle).
+  unfold value_read, nth_answer in Hm, Hs.
+  destruct (find_call (trace c) (want_read c (spec_min (kind c)) []) 0) as [i|] eqn:Ei; [|discriminate].
+  destruct (find_call (trace c) (want_read c (spec_stake (kind c)) [VAddress addr]) 0) as [j|] eqn:Ej; [|discriminate].
+  apply find_call_spec in Ei. destruct Ei as (i0 & -> & Hi). apply find_call_spec in Ej. destruct Ej as (j0 & -> & Hj).
+  cbn [Nat.add] in Hm, Hs.
+  destruct (nth i0 [a1; a2] CErr) as [|bm] eqn:Ea; [discriminate|].
+  destruct (nth j0 [a1; a2] CErr) as [|bs] eqn:Eb; [discriminate|].
+  exists i0, j0, bm, bs, m, s. repeat split; assumption.
+Qed.
+
+(* and when the recorded reads are exactly the two wanted ones in order -- what the model does
+   (C11_reads) -- this is the right-hand side of C11_fail_closed *)
+Lemma checker_reflects_check_two_reads c addr a1 a2 :
+  op c = OpCheck addr a1 a2 -> violation1 c = None -> res c = ObsBool true ->
+  calls (trace c) = [want_read c (spec_min (kind c)) []; want_read c (spec_stake (kind c)) [VAddress addr]] ->
+  exists m s,
+    (exists bm bs, a1 = CBytes bm /\ a2 = CBytes bs /\
+                   decode_uint256 bm = Some m /\ decode_uint256 bs = Some s) /\
+    m <= s.
+Proof.
+  intros Hop Hv Hres Hc.
+  destruct (checker_reflects_check_property c addr a1 a2 Hop Hv Hres)
+    as (i & j & bm & bs & m & s & Hi & Ha & Hm & Hj & Hb & Hs & Hle).
+  rewrite Hc in Hi, Hj.
+  assert (Hne : want_read c (spec_min (kind c)) [] <> want_read c (spec_stake (kind c)) [VAddress addr]).
+  { intros E. unfold want_read in E.
+    pose proof (read_reqs_differ (kec_of (abi c)) (reg c) (spec_min (kind c)) (spec_stake (kind c)) addr) as D.
+    rewrite E, txreq_eqb_refl in D. discriminate. }
+  assert (i = 0%nat).
+  { destruct i as [|[|i]]; [reflexivity| |destruct i; discriminate]. cbn [nth_error] in Hi. exfalso. apply Hne. congruence. }
+  assert (j = 1%nat).
+  { destruct j as [|[|j]]; [|reflexivity|destruct j; discriminate]. cbn [nth_error] in Hj. exfalso. apply Hne. congruence. }
+  subst i j. cbn [nth] in Ha, Hb.
+  exists m, s. split; [exists bm, bs; auto|exact Hle].
 Qed.
 
 (* stake / prepay passes only if every Send is the wanted one (at most one), and a reported
